@@ -76,6 +76,29 @@ def _discover_shape(ctx, prog, dcb, pf, DF):
                 return
 
 
+def _drop_after_append(rep, rule, p, a, dcb, pf, ctx):
+    from ..roles import ctor_param_fields
+    dfields = ctor_param_fields(ctx, pf, "delegate") or ["_delegate"]
+    drops = [e for e in p.evs("store") if e.d["target"][0] == "attr" and e.d["target"][1] == SELF and e.d["target"][2] in dfields and e.d["value"] == ("const", None)]
+    rep.ob(rule, "PollFuture: the delegate link is dropped on entry to the polling stage, after the entry is in the list", len(drops) == 1 and a.seq < drops[0].seq, "a cancel() between dropping the link and the append finds neither a delegate nor a descriptor: it succeeds without consulting the cancel function, and the entry appended afterwards is never removed (the executor keeps the finished future and the delegate's result for ever)" if drops else "the delegate link is not dropped", where_of(dcb), trace_of(p))
+
+
+def register_order_rule(ctx, rep, rule):
+    """shared with C12: an entry can only be registered for a future that cannot finish before the entry exists"""
+    pex, pf, li, dcb, own = roles(ctx)
+    DF = sorted(li.scanned)[0]
+    ps, it = ctx.paths(dcb, pf, depth=DEPTH, inline=std_inline)
+    n = 0
+    for p in ps:
+        if p.status != "return":
+            continue
+        apps = [e for e in p.calls() if q.call_name(e) in ("append", "add") and isinstance(q.recv(e), tuple) and q.recv(e)[0] == "attr" and q.recv(e)[2] == DF]
+        if apps:
+            n += 1
+            _drop_after_append(rep, rule, p, apps[0], dcb, pf, ctx)
+    rep.require(n >= 1, "PollFuture delegate callback: registration path not found")
+
+
 def roles(ctx):
     prog = ctx.prog
     pex = prog.cls("PollExecutor")
@@ -155,6 +178,7 @@ def snapshot_rule(ctx, rep):
                 rep.ob("R-SNAPSHOT", "poll loop: sleeps the interval returned by the poll function, else the default", ok, "wait(%s), numeric result: %s" % (fmt(t) if t else None, numeric), where_of(w.fn, w.node), trace_of(p, w.seq))
         else:
             rep.ob("R-SNAPSHOT", "poll loop: an exception from the poll function never escapes the loop", False, "the poll thread dies with %s" % fmt(p.value), where_of(li.target), trace_of(p))
+            kinds.add("raised")
     rep.require(kinds == {"raised", "returned"}, "poll loop: expected returning and raising poll paths, found %s" % sorted(kinds))
 
 
@@ -224,6 +248,8 @@ def check(ctx, rep):
                             held = bool(cs) and _callers_hold_lock(ctx, fi, cs)
                         rep.ob("R-GUARDED", "%s: descriptor list changed under the executor lock" % fi.qualname, held, "descriptor list changed without the executor lock: the poll thread's snapshot may miss or duplicate entries", where_of(fi, e.node), trace_of(p, e.seq))
     rep.count("mutations of the descriptor list", ng, 2)
+    from ..roles import rebuild_rule
+    rebuild_rule(ctx, rep, pex, DF, "R-GUARDED", "the list of polled entries")
 
     # ---- R-REGISTER: the delegate callback
     ps, it = ctx.paths(dcb, pf, depth=DEPTH, inline=std_inline)
@@ -260,8 +286,7 @@ def check(ctx, rep):
             rep.ob("R-GUARDED", "registration appends under the executor lock", lk, "", where_of(a.fn, a.node))
             sets = [e for e in p.calls() if q.call_name(e) == "set" and it.type_of(q.recv(e), p) == "E:Event"]
             rep.ob("R-WAKE-P", "registration wakes the poll thread after the append", bool(sets) and a.seq < sets[0].seq, "", where_of(a.fn, a.node), trace_of(p))
-            drops = [e for e in p.evs("store") if e.d["target"] == ("attr", SELF, "_delegate") and e.d["value"] == ("const", None)]
-            rep.ob("R-REGISTER", "PollFuture: the delegate link is dropped on entry to the polling stage, after the entry is in the list", len(drops) == 1 and a.seq < drops[0].seq, "a cancel() between dropping the link and the append finds neither a delegate nor a descriptor: it succeeds without consulting the cancel function, and the entry appended afterwards is never removed" if drops else "the delegate link is not dropped", where_of(dcb), trace_of(p))
+            _drop_after_append(rep, "R-REGISTER", p, a, dcb, pf, ctx)
         elif failed:
             ok = any(terminal_on(e, SELF, it, p) and q.call_name(e) != "cancel" for e in p.calls()) or any(v and isinstance(t, tuple) and t[0] == "call" and t[1] == ("attr", SELF, "done") for t, v in p.branch_atoms())
             rep.ob("R-REGISTER", "PollFuture: a failed delegate fails the future", ok, "", where_of(dcb), trace_of(p))
